@@ -5,7 +5,7 @@ while IFS= read -r line; do
   [ -z "$line" ] && continue
   left=${line%%|*}; checks=${line##*|}
   prop=$(echo "$left" | cut -d' ' -f1); m=$(echo "$left" | cut -d' ' -f2); dir=$(echo "$left" | cut -d' ' -f3); cmd=$(echo "$left" | cut -d' ' -f4-)
-  if [ "${SEEDROOT:-/tmp}" = "/verif/seeded" ]; then D=/verif/seeded/$prop-$m; else D=/tmp/seed_${prop}_out/$m; fi
+  if [ "${SEEDROOT:-/tmp}" = "/verif/seeded" ]; then D=/verif/seeded/$prop-$m; else D=${SEEDPFX:-/tmp/seed}_${prop}_out/$m; fi
   demo=$(ls $D/demo*.go 2>/dev/null | head -1)
   echo "######## $prop $m  (checks: $checks)"
   DEMO=$demo DEMODIR=$dir DEMOCMD="$cmd" /verif/tools/seedcheck.sh $D/patch.diff ${prop}${m} $checks 2>&1 | egrep "demo|repo tests|FAIL|^OK|^VIOLATION|INFRA|tag=|BUILD|apply" | cut -c1-170
